@@ -411,6 +411,32 @@ def specialise (r : Row) (c : Clause) (lo : QOpts) : Except QErr (Clause × QOpt
       | .error e => .error e
     else .ok (c4, lo3)
 
+/-- An object predicate bounded by bindings (`?s ?p "id"@[?lo,?hi]`) takes the bounds of its interval from the
+    row (1eb6e97; the pinned tree never read them). -/
+def objBound (r : Row) (alias : Bytes) (own : Option Time) : Except QErr (Option Time) :=
+  if alias = [] then .ok own else
+  match r.get alias with
+  | none => .error .boundAliasMissing
+  | some (.time t) => .ok (some t)
+  | some _ => .error .boundAliasNil
+
+def objBoundsForRow (r : Row) (c : Clause) : Except QErr Clause :=
+  match objBound r c.oLowerAlias c.oLower with
+  | .error e => .error e
+  | .ok lo =>
+    match objBound r c.oUpperAlias c.oUpper with
+    | .error e => .error e
+    | .ok hi => .ok { c with oLower := lo, oUpper := hi }
+
+/-- `addSpecifiedData`, first half, with the object's interval. -/
+def specialiseO (r : Row) (c : Clause) (lo : QOpts) : Except QErr (Clause × QOpts) :=
+  match specialise r c lo with
+  | .error e => .error e
+  | .ok (c', lo') =>
+    match objBoundsForRow r c' with
+    | .error e => .error e
+    | .ok c'' => .ok (c'', lo')
+
 /-- Second half: join the row with the fetched rows that agree with it; an OPTIONAL clause without
     such rows keeps the row with its new bindings unset. -/
 def joinRow (r : Row) (optional : Bool) (newBindings : List Bytes) (fetched : List Row) : List Row :=
@@ -427,7 +453,7 @@ def Clause.extractsNothing (c : Clause) : Bool :=
 
 def addSpecifiedData (F : Facts) (gs : List QGraph) (r : Row) (c : Clause) (lo : QOpts) (stmLimit : Int) :
     Except QErr (List Row) := do
-  let (c', lo') ← specialise r c lo
+  let (c', lo') ← specialiseO r c lo
   if c'.extractsNothing then
     -- constants and row-bounded predicates only: the clause has to hold for the row (probe)
     let rows ← simpleFetch F gs { c' with sAlias := [63, 95, 95, 101, 120, 105, 115, 116, 115] } lo' 0
